@@ -990,12 +990,18 @@ func (b *BMC) script(query string, K int) (string, map[string]string) {
 						valid = append(valid, and(base, noPartner, fmt.Sprintf("(= wg_%s_%d #x00)", ev.Obj, k)))
 						enabled = append(enabled, and(pre, fmt.Sprintf("(= wg_%s_%d #x00)", ev.Obj, k)))
 					case "load":
-						valid = append(valid, and(base, noPartner, fmt.Sprintf("(= %s val_%s_%d)", sym(), ev.Obj, k)))
+						if ev.Sym == nil {
+							valid = append(valid, and(base, noPartner)) // value not tracked (race query only)
+						} else {
+							valid = append(valid, and(base, noPartner, fmt.Sprintf("(= %s val_%s_%d)", sym(), ev.Obj, k)))
+						}
 						enabled = append(enabled, pre)
 					case "store":
 						valid = append(valid, and(base, noPartner))
 						enabled = append(enabled, pre)
-						cellEff[ev.Obj] = append(cellEff[ev.Obj], effect{fire, val()})
+						if ev.Val != nil {
+							cellEff[ev.Obj] = append(cellEff[ev.Obj], effect{fire, val()})
+						}
 					case "aadd":
 						nv := fmt.Sprintf("(bvadd val_%s_%d %s)", ev.Obj, k, val())
 						valid = append(valid, and(base, noPartner, fmt.Sprintf("(= %s %s)", sym(), nv)))
@@ -1092,10 +1098,10 @@ func (b *BMC) script(query string, K int) (string, map[string]string) {
 			w("(assert (=> st_%d st_%d))", k, k+1)
 		}
 	}
-	// canonical order of adjacent independent events (not for the race query)
-	if query != "race" {
-		b.emitPOR(&sb, K)
-	}
+	// canonical order of adjacent independent events. (Also sound for the race
+	// query: the racy state is the end state of a prefix of the execution, and
+	// every linearisation of that prefix, the canonical one included, reaches it.)
+	b.emitPOR(&sb, K)
 	// symmetry: instances of one template are interchangeable, so the one with
 	// the smaller index makes its first move first
 	for _, bt := range b.tmpls {
